@@ -343,6 +343,30 @@ def _():
     return (_grouped_df(), ["g1"], "seq"), {"group_weights": [1, 2]}
 
 
+def _grouped_df_holes():
+    """grouping keys and features with missing cells"""
+    df = _grouped_df()
+    df.loc[1, "g1"] = None
+    df.loc[4, "g1"] = None
+    df.loc[2, "f"] = None
+    return df
+
+
+@spec("pc_conditional_missing_keys", ST + "pc_conditional")
+def _():
+    return (_grouped_df_holes(), "g1", ["seq", "f"]), {}
+
+
+@spec("pc_grouped_cross_missing_keys", ST + "pc_grouped_cross")
+def _():
+    return (_grouped_df_holes(), "g1", ["seq", "f"]), {}
+
+
+@spec("pc_joint_missing_cells", ST + "pc_joint")
+def _():
+    return (_grouped_df_holes(), ["g1", "f"]), {}
+
+
 @spec("pc_conditional_weights_ndarray", ST + "pc_conditional")
 def _():
     import numpy as np
